@@ -18,6 +18,7 @@ import PFV.Proofs.GenFrame
 import PFV.Api
 import PFV.Reach
 import PFV.Front
+import PFV.Proofs.HeapFacts
 namespace PFV
 open Ref (RKind RState RMemo)
 
@@ -957,4 +958,51 @@ theorem legacy_py_counterexample :
     (Legacy.pySetRange (pyNew 3 (some 7)) 60 300).seed ≠ (pyNew 3 (some 7)).seed := by decide
 
 end C13
+end PFV
+
+namespace PFV
+/-! ## C14 — no leak (logic proved on the abstract heap; allocator behaviour observed by S8) -/
+namespace C14
+open Heap
+
+/-- the invariant holds of the empty heap and is preserved by allocation of a cell that references
+existing cells … -/
+theorem inv_alloc (h : H) (ks : List Nat) (b : Bool) (hi : ArenaInv h) (hs : Scoped h)
+    (hk : ∀ d ∈ ks, d < h.kids.length) : ArenaInv (alloc h ks b) ∧ Scoped (alloc h ks b) :=
+  alloc_inv h ks b hi hs hk
+
+/-- … and by in-place mutation of an arena cell, whatever it is made to reference (itself, or a
+tuple containing it: this is where `Rc` cycles come from) -/
+theorem inv_mutate (h : H) (c : Nat) (ks : List Nat) (hi : ArenaInv h) (hs : Scoped h)
+    (hc : c ∈ h.arena) (hk : ∀ d ∈ ks, d < h.kids.length) :
+    ArenaInv (mutate h c ks) ∧ Scoped (mutate h c ks) := mutate_inv h c ks hi hs hc hk
+
+/-- **C14 (logic).**  After `Stack::reset` / `Drop` has emptied the arena cells, every strong edge
+points to a strictly older cell, hence no set of cells can keep itself alive: reference counting
+reclaims every cell once the roots (stack, memo, output) are gone. -/
+theorem all_reclaimed (h : H) (hi : ArenaInv h) (S : List Nat) (hne : S ≠ [])
+    (hall : ∀ c ∈ S, ∃ c' ∈ S, c ∈ kidsOf (release h) c') : False :=
+  no_self_sustaining_set (release h) (release_decr h hi) S hne hall
+
+/-- without the release step the invariant alone does not prevent leaks: a list appended to
+itself is a self-sustaining set (the pre-repair behaviour, commit 33dde57) -/
+theorem legacy_cycle_leaks :
+    let h := mutate (alloc empty [] true) 0 [0]
+    ArenaInv h ∧ ∃ S : List Nat, S ≠ [] ∧ ∀ c ∈ S, ∃ c' ∈ S, c ∈ kidsOf h c' := by
+  refine ⟨?_, [0], by simp, ?_⟩
+  · intro c d hd
+    right
+    simp only [kidsOf, mutate, alloc, empty, List.nil_append, List.length_nil] at hd ⊢
+    cases c with
+    | zero => simp
+    | succ n => simp [List.getD] at hd
+  · intro c hc
+    simp at hc; subst hc
+    exact ⟨0, by simp, by simp [kidsOf, mutate, alloc, empty, List.getD]⟩
+
+/-- the translated list of in-place mutation sites: every receiver is a stack cell -/
+theorem mutation_sites_on_stack_cells :
+    ∀ s ∈ Gen.mutationSites, s.2.2 = "peek" ∨ s.2.2 = "pop" := by decide
+
+end C14
 end PFV
